@@ -39,7 +39,8 @@ enum StmtK { ST_DECL, ST_DEFAULT, ST_ASSIGN, ST_IF, ST_ELSE, ST_ELSEIF, ST_ELSEI
              // width-less, policy-carrying variables (own index space): UInt x = lit / SInt x{lit}; UInt x = zext(e) / oext(e); UInt x = y; x = lit; x = y; Bit t = (x op y)
              ST_ILIT, ST_IEXT, ST_ICOPY, ST_IASSIGN, ST_IVAR, ST_CMP,
              // enable scope ENIF (c) { body }; clocked statements whose (write) enable is observed: auto t = reg(e);  Memory<UInt> mem(2^aw, w_b); mem[addr] = d;
-             ST_ENIF, ST_REG, ST_MEMW };
+             ST_ENIF, ST_REG, ST_MEMW,
+             ST_RESET };   // x.resetNode(); x = e;  (the vector is re-created: every alias cache of x must be dropped)
 struct Stmt {
 	StmtK k = ST_DECL; Ty ty; std::string bits; int x = 0; std::vector<Sel> path; Expr e; std::vector<Stmt> body;
 	char ikind = 'u';      // 'u' UInt literal (policy zero), 's' SInt literal (policy sign), 'z' zext(e) (zero), 'o' oext(e) (one)
@@ -90,6 +91,7 @@ static void printStmts(std::ostream &o, const std::vector<Stmt> &ss) {
 			case ST_ENIF: o << "EN "; printExpr(o, s.e); o << '\n'; printStmts(o, s.body); o << "}\n"; break;
 			case ST_REG: o << "RG "; printExpr(o, s.e); o << '\n'; break;
 			case ST_MEMW: o << "MW "; printExpr(o, s.e); o << ' '; printExpr(o, s.e2); o << '\n'; break;
+			case ST_RESET: o << "RN " << s.x << ' '; printExpr(o, s.e); o << '\n'; break;
 		}
 	}
 }
@@ -137,6 +139,7 @@ static std::vector<Stmt> parseStmts(std::istream &in) {
 		else if (h == "E2") { s.k = ST_ELSEIF2; s.e = parseExpr(tk); s.body = parseStmts(in); }
 		else if (h == "EN") { s.k = ST_ENIF; s.e = parseExpr(tk); s.body = parseStmts(in); }
 		else if (h == "RG") { s.k = ST_REG; s.e = parseExpr(tk); }
+		else if (h == "RN") { s.k = ST_RESET; s.x = atoi(tk.next().c_str()); s.e = parseExpr(tk); }
 		else if (h == "MW") { s.k = ST_MEMW; s.e = parseExpr(tk); s.e2 = parseExpr(tk); }
 		else if (h == "IL") { s.k = ST_ILIT; s.ikind = tk.next()[0]; s.lit = atoll(tk.next().c_str()); }
 		else if (h == "IX") { s.k = ST_IEXT; s.ikind = tk.next()[0]; s.e = parseExpr(tk); }
@@ -480,7 +483,20 @@ struct Gen {
 			}
 			plan.insert(plan.begin() + rng.below(plan.size() + 1), s);
 		}
+		// resetNode() between uses of the same index signal / the same selections: x is re-created and every alias cache of x (dynamic
+		// bit aliases, the static / dynamic slice cache, bit aliases) must be dropped - a stale alias is bound to the OLD node.
+		// Only where re-creating is a sequential assignment: x was declared at this conditional level.
+		int resetAt = -1;
+		if (!vars[vx].input || true) if (!condBetween(vars[vx].depth, depth) && rng.chance(3, 5)) {
+			if (rng.chance(1, 2)) plan.insert(plan.begin() + rng.below(plan.size() + 1), Sel{S_DBIT, ix, 0});
+			if (rng.chance(1, 3)) plan.insert(plan.begin() + rng.below(plan.size() + 1), Sel{S_BIT, (int)rng.below(W), 0});
+			size_t n0 = plan.size();
+			resetAt = (int)rng.range(1, n0);
+			for (size_t i = 0; i < n0 && plan.size() < 8; i++) if (rng.chance(2, 3)) plan.push_back(plan[i]);      // the earlier selections again, after the reset
+			if ((size_t)resetAt == plan.size()) plan.push_back(plan[rng.below(plan.size())]);
+		}
 		for (size_t i = 0; i < plan.size(); i++) {
+			if ((int)i == resetAt) { Stmt r; r.k = ST_RESET; r.x = vx; r.e = genExpr(Ty{false, W}, 1); out.push_back(r); budget--; }
 			const Sel &s = plan[i];
 			Ty st = selTy(s);
 			if (i > 0 && rng.chance(1, 6)) {               // near miss: the index signal gets a new driver in between (other node port)
@@ -488,7 +504,7 @@ struct Gen {
 			}
 			bool wrap = depth < maxDepth && rng.chance(1, 3);
 			Stmt acc;
-			bool write = rng.chance(1, 2);
+			bool write = (resetAt >= 0 && (int)i >= resetAt) ? rng.chance(3, 4) : rng.chance(1, 2);
 			if (write) { acc.k = ST_ASSIGN; acc.x = vx; acc.path = {s}; acc.e = genExpr(st, 1); }
 			else {
 				Expr r; r.k = E_READ; r.ty = st; r.x = vx; r.path = {s};
@@ -865,6 +881,14 @@ struct Exec {
 					if (x.u) v.b = std::make_unique<Bit>(s.op == O_EQ ? (*x.u == *y.u) : s.op == O_NE ? (*x.u != *y.u) : (*x.u < *y.u));
 					else v.b = std::make_unique<Bit>(s.op == O_EQ ? (*x.s == *y.s) : s.op == O_NE ? (*x.s != *y.s) : (*x.s < *y.s));
 					vars.push_back(std::move(v));
+					break;
+				}
+				case ST_RESET: {
+					if (s.x < 0 || s.x >= (int)vars.size() || !vars[s.x].u || exprIsBit(s.e)) throw std::runtime_error("type");
+					UInt v = evalU(s.e);                 // the right-hand side may read x: evaluate it before the reset
+					if (v.size() != vars[s.x].u->size()) throw std::runtime_error("width change");
+					vars[s.x].u->resetNode();
+					*vars[s.x].u = v;
 					break;
 				}
 				case ST_ENIF:
